@@ -210,10 +210,23 @@ def explore(ctx, pid, want, n_quick=8, n_thorough=60, cuts_quick=40, big=False, 
         if t < 2:
             samples.append(" ; ".join(l[3:] for l in script[1:25]))
         cuts = analyse_trace(log, root + "/db")
+        # images whose newest commit-log segment starts with a torn record (the cut is the first write into a segment
+        # and the power-loss policy keeps only part of it) go first: the next generation appends behind that tail
+        first_w, fresh = set(), {}
+        for li, l in enumerate(log):
+            tk = l.split()
+            if tk[0] == "O" and "/wal/" in tk[3] and "c" in tk[2]:
+                fresh[tk[1]] = True
+            elif tk[0] == "P" and fresh.get(tk[1]):
+                fresh[tk[2]] = True
+            elif tk[0] == "W" and fresh.get(tk[1]):
+                first_w.add(li)
+                for k_ in [k_ for k_, v_ in fresh.items() if v_]:
+                    fresh[k_] = False
         # quick: sample cuts, biased to namespace operations and markers
         if tier == "quick" and len(cuts) > cuts_quick:
-            prio = [c for c in cuts if c[3] in ("R", "U", "marker", "S", "T")]
-            rest = [c for c in cuts if c[3] not in ("R", "U", "marker", "S", "T")]
+            prio = [c for c in cuts if c[3] in ("R", "U", "marker", "S", "T") or c[0] in first_w]
+            rest = [c for c in cuts if not (c[3] in ("R", "U", "marker", "S", "T") or c[0] in first_w)]
             pick = prio[:] if len(prio) <= cuts_quick * 2 // 3 else rng.sample(prio, cuts_quick * 2 // 3)
             pick += rng.sample(rest, min(len(rest), cuts_quick - len(pick)))
             cuts = sorted(set(pick))
@@ -249,7 +262,11 @@ def explore(ctx, pid, want, n_quick=8, n_thorough=60, cuts_quick=40, big=False, 
                 res["violations"].append((desc, "\n".join(text) + "\n", dict(trace=t, cut=ci, pol=pol, verdict=verdict, kind=kind, opts=opts, log=log, script=script, commits=commits)))
         # ---- second generation: commit on top of a recovered image, crash (process), reopen
         ok_imgs = [(d, ci, pol, ans) for (d, ci, pol), ans in zip(imgs, answers) if judge(ans, commits, 0)[0] == "ok"]
-        g2 = rng.sample(ok_imgs, min(len(ok_imgs), 12 if tier == "quick" else 60))
+        torn = [x for x in ok_imgs if x[1] in first_w and x[2] in ("half", "allbutone")]
+        rest = [x for x in ok_imgs if x not in torn]
+        n_g2 = 12 if tier == "quick" else 60
+        g2 = torn[:n_g2 // 2] + rng.sample(rest, min(len(rest), n_g2 - min(len(torn), n_g2 // 2)))
+        stats["gen2_torn_first_record_images"] = stats.get("gen2_torn_first_record_images", 0) + min(len(torn), n_g2 // 2)
         if g2:
             scripts = []
             newc = [("6e6577%02x" % j, "%04x" % (0xa000 + j)) for j in range(3)]
